@@ -191,6 +191,8 @@ def dumpUnknownView (pfx : String) (base : Nat) (d : Bytes) : Out := Id.run do
   let mut o : Out := #[(pfx ++ "data", acc (Unknown.data d) (sliceStr base))]
   for k in Kind.all do
     o := o.push (pfx ++ "as." ++ kindName k, resP (k.parse d))
+    -- the owned `TryFrom<Unknown>`: the model has one conversion function
+    o := o.push (pfx ++ "aso." ++ kindName k, resP (k.parse d))
   return o
 
 def variantName : Packet → String
@@ -231,6 +233,9 @@ def dumpPacketView (pfx : String) (base : Nat) (p : Packet) (bytes : Bytes) (ful
         | _, .panic => "panic"
         | _, _ => if decide (typed = conv) then "true" else "false"
       o := o.push (pfx ++ "conv_same." ++ kindName k, same)
+      -- the owned `TryFrom<Packet>`: the model has one conversion function (`Packet.tryAs`)
+      o := o.push (pfx ++ "convo." ++ kindName k, resP conv)
+      o := o.push (pfx ++ "convo_same." ++ kindName k, same)
   return o
 
 inductive PKind where
